@@ -42,7 +42,7 @@ def main():
         root, crate = variants[vkey]
         gb = sched.acquire(hs.get("mem", 8))
         try:
-            r = kani.run_harness(crate, os.path.join(root, "t_" + h), h, int(hs.get("timeout", 300) * scale), hs.get("mem", 8) * 2.5,
+            r = kani.run_harness(crate, os.path.join(root, "t_" + h), h, int(max(1200, hs.get("timeout", 300)) * scale), hs.get("mem", 8) * 2.5,
                                  os.path.join(logs, h + ".log"), extra=hs.get("extra"), fs=hs.get("fs", 4096))
             kani.cache_store(cp, r)
             return r
